@@ -1,0 +1,323 @@
+//! Verification-only (`--cfg folo_verif`) stand-ins for the synchronization primitives used by
+//! the lock-free protocols in this workspace. Included via `#[path]` as `mod verif_sync` by the
+//! crates that opt in; never compiled into normal builds.
+//!
+//! Every type wraps the real `std` type and performs the real operation with the real operands
+//! and orderings. When an out-of-tree harness has installed hooks, each operation is first
+//! reported to the harness (which may use it as a scheduling point and feeds a happens-before
+//! model); without hooks the types are plain pass-throughs.
+
+#![allow(dead_code, missing_docs, missing_debug_implementations, unreachable_pub, clippy::all, clippy::pedantic, clippy::restriction, clippy::nursery, reason = "verification-only shim")]
+
+use std::sync::atomic::{AtomicUsize as StdAtomicUsize, Ordering as StdOrdering};
+
+/// What kind of access an atomic operation is.
+#[derive(Clone, Copy, Debug, Eq, PartialEq)]
+#[repr(u8)]
+pub enum AtomicOp {
+    Load = 0,
+    Store = 1,
+    /// Read-modify-write that always writes (swap, `fetch_*`).
+    Rmw = 2,
+    /// Compare-exchange: writes only on success.
+    Cas = 3,
+}
+
+/// `exec` performs the real operation and returns `(value read, value written if any)`.
+/// The hook returns the value the operation reports as read (a load may be given an older one).
+pub type AtomicHook = fn(
+    addr: usize,
+    op: AtomicOp,
+    success: StdOrdering,
+    failure: StdOrdering,
+    exec: &mut dyn FnMut() -> (u64, Option<u64>),
+) -> u64;
+pub type FenceHook = fn(order: StdOrdering);
+pub type SpinHook = fn();
+/// Returns once `try_lock` returned true.
+pub type MutexLockHook = fn(addr: usize, try_lock: &mut dyn FnMut() -> bool);
+pub type MutexUnlockHook = fn(addr: usize);
+
+#[derive(Clone, Copy)]
+pub struct Hooks {
+    pub atomic: AtomicHook,
+    pub fence: FenceHook,
+    pub spin: SpinHook,
+    pub mutex_lock: MutexLockHook,
+    pub mutex_unlock: MutexUnlockHook,
+}
+
+static HOOKS: StdAtomicUsize = StdAtomicUsize::new(0);
+
+/// Installs (or with `None` removes) the hooks. The hooks value is leaked.
+pub fn install(hooks: Option<Hooks>) {
+    let ptr = match hooks {
+        Some(h) => Box::into_raw(Box::new(h)) as usize,
+        None => 0,
+    };
+    HOOKS.store(ptr, StdOrdering::SeqCst);
+}
+
+#[inline]
+fn hooks() -> Option<&'static Hooks> {
+    let ptr = HOOKS.load(StdOrdering::Relaxed);
+    if ptr == 0 {
+        None
+    } else {
+        // SAFETY: Only ever set to a leaked `Box<Hooks>`.
+        Some(unsafe { &*(ptr as *const Hooks) })
+    }
+}
+
+pub fn spin_loop() {
+    match hooks() {
+        Some(h) => (h.spin)(),
+        None => std::hint::spin_loop(),
+    }
+}
+
+pub mod atomic {
+    pub use std::sync::atomic::Ordering;
+
+    use super::{AtomicOp, hooks};
+
+    pub fn fence(order: Ordering) {
+        if let Some(h) = hooks() {
+            (h.fence)(order);
+        }
+        std::sync::atomic::fence(order);
+    }
+
+    /// The failure ordering a plain RMW / load / store reports to the hook (unused by them).
+    const NA: Ordering = Ordering::Relaxed;
+
+    macro_rules! shim_atomic_int {
+        ($name:ident, $std:ty, $int:ty) => {
+            #[repr(transparent)]
+            pub struct $name($std);
+
+            impl $name {
+                #[must_use]
+                pub const fn new(value: $int) -> Self {
+                    Self(<$std>::new(value))
+                }
+
+                fn addr(&self) -> usize {
+                    std::ptr::from_ref(self) as usize
+                }
+
+                pub fn load(&self, order: Ordering) -> $int {
+                    match hooks() {
+                        None => self.0.load(order),
+                        Some(h) => (h.atomic)(self.addr(), AtomicOp::Load, order, NA, &mut || {
+                            (self.0.load(order) as u64, None)
+                        }) as $int,
+                    }
+                }
+
+                pub fn store(&self, value: $int, order: Ordering) {
+                    match hooks() {
+                        None => self.0.store(value, order),
+                        Some(h) => {
+                            (h.atomic)(self.addr(), AtomicOp::Store, order, NA, &mut || {
+                                // The previous value is reported for the model's bookkeeping only.
+                                let old = self.0.swap(value, order);
+                                (old as u64, Some(value as u64))
+                            });
+                        }
+                    }
+                }
+
+                pub fn compare_exchange(
+                    &self,
+                    current: $int,
+                    new: $int,
+                    success: Ordering,
+                    failure: Ordering,
+                ) -> Result<$int, $int> {
+                    match hooks() {
+                        None => self.0.compare_exchange(current, new, success, failure),
+                        Some(h) => {
+                            let mut ok = false;
+                            let seen = (h.atomic)(self.addr(), AtomicOp::Cas, success, failure, &mut || {
+                                match self.0.compare_exchange(current, new, success, failure) {
+                                    Ok(old) => {
+                                        ok = true;
+                                        (old as u64, Some(new as u64))
+                                    }
+                                    Err(old) => (old as u64, None),
+                                }
+                            }) as $int;
+                            if ok { Ok(seen) } else { Err(seen) }
+                        }
+                    }
+                }
+
+                pub fn compare_exchange_weak(
+                    &self,
+                    current: $int,
+                    new: $int,
+                    success: Ordering,
+                    failure: Ordering,
+                ) -> Result<$int, $int> {
+                    self.compare_exchange(current, new, success, failure)
+                }
+
+                shim_atomic_int!(@rmw $int, swap);
+                shim_atomic_int!(@rmw $int, fetch_add);
+                shim_atomic_int!(@rmw $int, fetch_sub);
+                shim_atomic_int!(@rmw $int, fetch_and);
+                shim_atomic_int!(@rmw $int, fetch_or);
+                shim_atomic_int!(@rmw $int, fetch_xor);
+                shim_atomic_int!(@rmw $int, fetch_max);
+                shim_atomic_int!(@rmw $int, fetch_min);
+
+                pub fn get_mut(&mut self) -> &mut $int {
+                    self.0.get_mut()
+                }
+
+                pub fn into_inner(self) -> $int {
+                    self.0.into_inner()
+                }
+            }
+
+            impl std::fmt::Debug for $name {
+                fn fmt(&self, f: &mut std::fmt::Formatter<'_>) -> std::fmt::Result {
+                    self.0.fmt(f)
+                }
+            }
+
+            impl Default for $name {
+                fn default() -> Self {
+                    Self::new(0)
+                }
+            }
+        };
+        (@rmw $int:ty, $method:ident) => {
+            pub fn $method(&self, value: $int, order: Ordering) -> $int {
+                match hooks() {
+                    None => self.0.$method(value, order),
+                    Some(h) => (h.atomic)(self.addr(), AtomicOp::Rmw, order, NA, &mut || {
+                        let old = self.0.$method(value, order);
+                        // Only reported for bookkeeping; recomputed from memory to stay exact.
+                        let new = self.0.load(Ordering::Relaxed);
+                        (old as u64, Some(new as u64))
+                    }) as $int,
+                }
+            }
+        };
+    }
+
+    shim_atomic_int!(AtomicU8, std::sync::atomic::AtomicU8, u8);
+    shim_atomic_int!(AtomicU32, std::sync::atomic::AtomicU32, u32);
+    shim_atomic_int!(AtomicU64, std::sync::atomic::AtomicU64, u64);
+    shim_atomic_int!(AtomicUsize, std::sync::atomic::AtomicUsize, usize);
+}
+
+/// `std::sync::Mutex` whose lock / unlock are reported to the hooks.
+pub struct Mutex<T: ?Sized> {
+    inner: std::sync::Mutex<T>,
+}
+
+pub struct MutexGuard<'a, T: ?Sized> {
+    guard: Option<std::sync::MutexGuard<'a, T>>,
+    addr: usize,
+}
+
+impl<T> Mutex<T> {
+    pub const fn new(value: T) -> Self {
+        Self {
+            inner: std::sync::Mutex::new(value),
+        }
+    }
+
+    pub fn into_inner(self) -> std::sync::LockResult<T> {
+        self.inner.into_inner()
+    }
+}
+
+impl<T: ?Sized> Mutex<T> {
+    fn addr(&self) -> usize {
+        std::ptr::from_ref(&self.inner).cast::<u8>() as usize
+    }
+
+    pub fn lock(&self) -> std::sync::LockResult<MutexGuard<'_, T>> {
+        let Some(h) = hooks() else {
+            return match self.inner.lock() {
+                Ok(guard) => Ok(MutexGuard {
+                    guard: Some(guard),
+                    addr: 0,
+                }),
+                Err(poisoned) => Err(std::sync::PoisonError::new(MutexGuard {
+                    guard: Some(poisoned.into_inner()),
+                    addr: 0,
+                })),
+            };
+        };
+
+        let addr = self.addr();
+        let mut result = None;
+        (h.mutex_lock)(addr, &mut || match self.inner.try_lock() {
+            Ok(guard) => {
+                result = Some(Ok(guard));
+                true
+            }
+            Err(std::sync::TryLockError::Poisoned(poisoned)) => {
+                result = Some(Err(poisoned.into_inner()));
+                true
+            }
+            Err(std::sync::TryLockError::WouldBlock) => false,
+        });
+        match result.expect("the lock hook returns only once the lock is held") {
+            Ok(guard) => Ok(MutexGuard {
+                guard: Some(guard),
+                addr,
+            }),
+            Err(guard) => Err(std::sync::PoisonError::new(MutexGuard {
+                guard: Some(guard),
+                addr,
+            })),
+        }
+    }
+
+    pub fn get_mut(&mut self) -> std::sync::LockResult<&mut T> {
+        self.inner.get_mut()
+    }
+}
+
+impl<T: ?Sized> std::ops::Deref for MutexGuard<'_, T> {
+    type Target = T;
+
+    fn deref(&self) -> &T {
+        self.guard.as_ref().expect("guard is present until drop")
+    }
+}
+
+impl<T: ?Sized> std::ops::DerefMut for MutexGuard<'_, T> {
+    fn deref_mut(&mut self) -> &mut T {
+        self.guard.as_mut().expect("guard is present until drop")
+    }
+}
+
+impl<T: ?Sized> Drop for MutexGuard<'_, T> {
+    fn drop(&mut self) {
+        drop(self.guard.take());
+        if self.addr != 0
+            && let Some(h) = hooks()
+        {
+            (h.mutex_unlock)(self.addr);
+        }
+    }
+}
+
+impl<T: ?Sized + std::fmt::Debug> std::fmt::Debug for Mutex<T> {
+    fn fmt(&self, f: &mut std::fmt::Formatter<'_>) -> std::fmt::Result {
+        self.inner.fmt(f)
+    }
+}
+
+impl<T: Default> Default for Mutex<T> {
+    fn default() -> Self {
+        Self::new(T::default())
+    }
+}
